@@ -577,7 +577,12 @@ def prove_in_vocabulary(eng, label, goal, vocabulary, kind="annotation", note=""
 
     names = set()
     for s in vocabulary:
-        names.add(s if isinstance(s, str) else (s.name() if isinstance(s, z3.FuncDeclRef) else s.decl().name()))
+        if isinstance(s, str):
+            names.add(s)
+        elif isinstance(s, z3.FuncDeclRef):
+            names.add(s.name())
+        else:
+            names |= _symbols(s)  # a term: every uninterpreted symbol in it
     hyps = [h for h in eng.pc if not _is_quantified(h) or _symbols(h) <= names]
     note = (note + " " if note else "") + "[context restricted to: " + ", ".join(sorted(names)) + "]" + (f" [variant {eng.variant}]" if getattr(eng, "variant", "") else "")
     eng.obligs.append(Oblig(f"{eng.prop}/{label}", hyps, goal, kind, note))
